@@ -234,6 +234,8 @@ func replayC19(detail json.RawMessage) error {
 		}
 		return fmt.Errorf("not a sequential case")
 	}
+	rs.Quiet(false)
+	cleanPackageState()
 	rs.Quiet(c.Trace)
 	q := c19Q()
 	w := c19Build(c.Cfg)
@@ -242,6 +244,7 @@ func replayC19(detail json.RawMessage) error {
 		got = c19Do(w, q[i], c.Serve)
 		fmt.Printf("%v -> %s\n", q[i], got)
 	}
+	cleanPackageState()
 	rs.Quiet(false)
 	fresh := c19Do(c19Build(c.Cfg), q[c.Seq[len(c.Seq)-1]], c.Serve)
 	fmt.Printf("fresh container (trace off): %s\n", fresh)
@@ -284,12 +287,16 @@ func checkC19(run *h.Run) {
 	var states, trans int64
 	cfgs := c19Cfgs(run.Tier)
 	outcomes := h.NewDistinctSet(100000)
+	rs.Quiet(false)
+	cleanPackageState() // first call: the state every history starts from
 	for _, serve := range []bool{false, true} {
 		// fresh-container responses with trace off are the reference for everything else
 		rs.Quiet(false)
 		fresh := map[string]string{}
 		for _, cfg := range cfgs {
 			for i := range q {
+				cleanPackageState()
+				rs.Quiet(false)
 				k := c19Do(c19Build(cfg), q[i], serve)
 				fresh[fmt.Sprint(cfg, i)] = k
 				outcomes.Add(k)
@@ -304,6 +311,8 @@ func checkC19(run *h.Run) {
 			rs.Quiet(trace)
 			for _, cfg := range cfgs {
 				for _, seq := range seqs {
+					cleanPackageState()
+					rs.Quiet(trace)
 					w := c19Build(cfg)
 					got := ""
 					for _, i := range seq {
@@ -323,6 +332,8 @@ func checkC19(run *h.Run) {
 					}
 				}
 				if !trace {
+					cleanPackageState()
+					rs.Quiet(trace)
 					w := c19Build(cfg)
 					for i := range q {
 						got := ""
@@ -354,7 +365,7 @@ func checkC19(run *h.Run) {
 	run.Cov["distinct_outcomes"] = outcomes.Len()
 	run.Cov["exhaustive"] = true
 	run.Cov["rule"] = fmt.Sprintf("E2: configurations {plain, 3 container + service + route filters, CORS with computed methods, OPTIONS filter, encoding with bounded(1) provider} x {CurlyRouter, RouterJSR311} x entry {Dispatch, ServeHTTP} x trace {off, on}: every sequence over the request set Q (%d requests: two GETs on one template, POST entity, 404, 405, CORS preflight, a handler that dispatches a nested request, a second template with other methods incl. its preflight and 405, a second service, a plain handler behind HandleWithFilter, an entity negotiated between XML and JSON under two Accept headers that differ only in letter case) of length <= %d on one container, plus the 1000-fold repetition of each request; the last response (status, all headers, decoded body with echoed parameters / attribute / selected route) must equal the response on a fresh container with trace off. E3 (instrumented): every pair (thorough: also triples) of Q concurrently, all schedules within the preemption bound, same oracle per request, happens-before race detection; then the free-running -race pass. Every history is non-trivial.", len(q), depth)
-	run.Assume = []string{"differential: the fresh-container response is the reference; handlers also self-check that their own view does not change while they run"}
+	run.Assume = []string{"every history starts from the same package-level state (restored between histories)", "differential: the fresh-container response is the reference; handlers also self-check that their own view does not change while they run"}
 	if f := e3Part["C19"]; f != nil {
 		f(run)
 	} else {
